@@ -27,7 +27,7 @@
 const char *target_name = "sig";
 
 enum { L_MIXED_FLAGS, L_DELIVERY_IN_HANDLER, L_EXCL_UNREG_OPEN, L_THIS_THREAD, L_TWO_THREADS, L_RAISE_IN_LIBCALL, L_FORK_CHILD, L_PLAIN_RECEIVER,
-       L_HANDOFF_TO_FALLBACK, L_COALESCED, L_LAST_UNREG_RESTORES_DFL, L_M0, L_M1, L_M2, L_M3, L_EXCLUSIVE, L_THIS_SHADOWS_PROCESS, L_OTHER_THREAD_NOT_WOKEN, L_PIPE };
+       L_HANDOFF_TO_FALLBACK, L_COALESCED, L_LAST_UNREG_RESTORES_DFL, L_M0, L_M1, L_M2, L_M3, L_EXCLUSIVE, L_THIS_SHADOWS_PROCESS, L_OTHER_THREAD_NOT_WOKEN, L_PIPE, L_BAD_SIGNUM, L_CHILD_REGISTERS };
 
 #define FAILC(tag, ...) vz_fail("C10", tag, __VA_ARGS__)
 static void fail_any(const char *tag, const char *fmt, ...)
@@ -220,8 +220,8 @@ static void sig_register(struct owner *o, int i, int arm_raise)
 	struct msig *s = &o->is[i];
 	int want_sig = ch_n(NSIGS), want_flags = ch_n(4);
 	if (ninflight[want_sig] > 0) return;       /* not while a delivery of that signal is being processed in another thread */
-	s->iv = malloc(sizeof *s->iv); memset(s->iv, 0xA5, sizeof *s->iv);
-	IV_SIGNAL_INIT(s->iv);
+	if (s->iv) vz_log("[T%d] (interest %d.%d: same struct as before, not initialised again)", sched_self(), (int)(o - own), i);   /* kept by sig_unregister */
+	else { s->iv = malloc(sizeof *s->iv); memset(s->iv, 0xA5, sizeof *s->iv); IV_SIGNAL_INIT(s->iv); }
 	s->sig = want_sig; s->flags = want_flags; s->owner = (int)(o - own); s->idx = i;
 	s->iv->signum = signums[s->sig]; s->iv->flags = s->flags; s->iv->cookie = s; s->iv->handler = sig_handler;
 	s->need_after = s->last_handler = 0; s->nhandled = s->may = 0;
@@ -265,8 +265,59 @@ static void sig_unregister(struct owner *o, int i, int arm_raise)
 	in_libcall = 0; libcalls_inflight[s->sig]--;
 	if (raise_pending_unmask) { raise_pending_unmask = 0; raises_inflight--; for (int k = 0; k < ninflight[pend_si]; k++) if (inflight_t[pend_si][k] == pend_t) { inflight_t[pend_si][k] = inflight_t[pend_si][--ninflight[pend_si]]; break; } }
 	raise_armed = -1; (void)raise_si; (void)t;
-	memset(s->iv, 0x5A, sizeof *s->iv); free(s->iv); s->iv = NULL;
+	/* "initialised by IV_SIGNAL_INIT" once: the caller may keep the struct and register it again as it is */
+	if (o->shutdown_done || ch_n(3)) { memset(s->iv, 0x5A, sizeof *s->iv); free(s->iv); s->iv = NULL; }
 	check_disposition(s->sig, "after iv_signal_unregister");
+}
+
+/* a signal number outside the supported range is refused, and the refusal leaves nothing behind (no lock held, no signal blocked) */
+static void register_bad_signum(void)
+{
+	struct iv_signal *bad = malloc(sizeof *bad); memset(bad, 0xA5, sizeof *bad);
+	IV_SIGNAL_INIT(bad);
+	bad->signum = (int[]){ -1, _NSIG, _NSIG + 35, 1000, -2147483647 - 1 }[ch_n(5)]; bad->flags = ch_n(4); bad->cookie = NULL; bad->handler = NULL;
+	vz_label(L_BAD_SIGNUM); vz_hash_u(0x700);
+	sigset_t before, after; pthread_sigmask(SIG_SETMASK, NULL, &before);
+	int r = iv_signal_register(bad);
+	pthread_sigmask(SIG_SETMASK, NULL, &after);
+	vz_log("[T%d] iv_signal_register with signum %d -> %d", sched_self(), bad->signum, r);
+	if (r == 0) FAILC("bad-signum-accepted", "iv_signal_register accepted signal number %d", bad->signum);
+	for (int k = 1; k < _NSIG; k++) if (sigismember(&before, k) != sigismember(&after, k)) { FAILC("sigmask-changed", "a refused iv_signal_register left signal %d %s", k, sigismember(&after, k) ? "blocked" : "unblocked"); break; }
+	free(bad);
+}
+
+/* after the scenario: a child made by plain fork() (its parent has used iv_signal) starts its own loop, registers its first
+ * interest and sends itself the signal: the delivery must reach the handler.  Runs on the virtual clock, so "never" is the
+ * guard timer at +2 s being reached with nothing else to do. */
+static int hook_sysfault(int sys, unsigned long k);
+static int child_hits;
+static struct iv_signal child_is; static struct iv_timer child_guard;
+static void child_sig_handler(void *c) { (void)c; child_hits++; iv_signal_unregister(&child_is); iv_timer_unregister(&child_guard); }
+static void child_guard_cb(void *c) { (void)c; _exit(7); }
+static void fork_child_registers(void)
+{
+	int si = ch_n(NSIGS), fl = ch_n(4), twice = ch_n(2);
+	vz_label(L_CHILD_REGISTERS); vz_hash_u(0x800 + si * 4 + fl);
+	vz_log("epilogue: forked child registers its first interest (signal#%d flags=%d) and signals itself", si, fl);
+	pid_t pid = fork();
+	if (pid == 0) {
+		vk_reset(); vk_hooks.sysfault = hook_sysfault; vk_active = 1;
+		iv_init();
+		IV_SIGNAL_INIT(&child_is); child_is.signum = signums[si]; child_is.flags = fl; child_is.cookie = NULL; child_is.handler = child_sig_handler;
+		if (iv_signal_register(&child_is)) _exit(8);
+		kill(getpid(), signums[si]); if (twice) raise(signums[si]);
+		IV_TIMER_INIT(&child_guard); iv_validate_now(); child_guard.expires = iv_now; child_guard.expires.tv_sec += 2; child_guard.handler = child_guard_cb;
+		iv_timer_register(&child_guard);
+		iv_main();
+		iv_deinit();
+		_exit(child_hits == 1 ? 0 : 9);
+	}
+	if (pid > 0) {
+		int st; while (waitpid(pid, &st, 0) < 0 && errno == EINTR) ;
+		if (WIFEXITED(st) && WEXITSTATUS(st) == 7) FAILC("child-delivery-lost", "forked child: the delivery of signal#%d to its first interest (flags=%d) never reached the handler", si, fl);
+		else if (WIFEXITED(st) && WEXITSTATUS(st) == 3) FAILC("child-fatal", "forked child: iv_fatal");
+		else if (!WIFEXITED(st) || WEXITSTATUS(st)) fail_any("child-registers-failed", "forked child ended with status 0x%x", st);
+	}
 }
 
 static void fork_child_raises(void)
@@ -293,6 +344,7 @@ static void owner_shutdown(struct owner *o)
 	o->shutdown_done = 1;
 	vz_log("[T%d] owner%d shuts down", sched_self(), (int)(o - own));
 	for (int i = 0; i < MAXI; i++) if (o->is[i].registered) sig_unregister(o, i, 0);
+	for (int i = 0; i < MAXI; i++) if (!o->is[i].registered && o->is[i].iv) { free(o->is[i].iv); o->is[i].iv = NULL; }
 	if (o->act_armed) { iv_timer_unregister(&o->act_timer); o->act_armed = 0; }
 	if (iv_timer_registered(&o->shutdown_timer)) iv_timer_unregister(&o->shutdown_timer);
 }
@@ -321,6 +373,7 @@ void owner_actions(struct owner *o, int nmax)
 		case 4: case 5: case 6: case 7: do_raise(ch_n(NSIGS)); break;
 		case 8: sched_point("action-yield"); break;
 		case 9: if (ch_n(4) == 0) fork_child_raises(); break;
+		case 10: if (ch_n(3) == 0) register_bad_signum(); break;
 		default: break;
 		}
 	}
@@ -439,6 +492,7 @@ void target_run(void)
 	sched_finish();
 	vk_active = 0;
 	for (int k = 0; k < NSIGS; k++) check_disposition(k, "at the end");
+	if (ch_n(3) == 0) fork_child_registers();
 	vz_count(0, sched_step); vz_count(1, sched_switches); vz_count(2, lclock);
 	if (vz_has_label(L_MIXED_FLAGS) || vz_has_label(L_DELIVERY_IN_HANDLER) || vz_has_label(L_EXCL_UNREG_OPEN)) vz_nontrivial();
 }
